@@ -396,7 +396,7 @@ def abandon_program(rng, ncases, lanes=ALL_LANES, big=False):
         key = add_key(prog, rand_key(rng, c)) if keyed else None
         opts = rand_opts(rng) if rng.random() < 0.3 else {}
         point = rng.choice(["after_open", "after_chunks", "inflight", "after_close", "rejected_size",
-                            "rejected_sri", "after_all", "odd_order"])
+                            "rejected_sri", "after_all", "odd_order", "cleared", "cleared"])
         ch = rng.choice(chunkings(rng, n, big))
         w = "w%d" % c
         if point == "rejected_size":
@@ -419,7 +419,18 @@ def abandon_program(rng, ncases, lanes=ALL_LANES, big=False):
         if rng.random() < 0.5:
             prog["steps"].append({"op": "write", "lane": rng.choice(lanes), "key": rng.choice(okkeys),
                                   "data": d_ok, "algo": "sha256"})
-        if point == "odd_order":
+        if point == "cleared":
+            # the whole cache is cleared while the writer is open (its temp file is swept away):
+            # commit must return (an error, or success when the content is there again), never hang
+            prog["steps"].append({"op": "clear", "lane": rng.choice(lanes)})
+            if rng.random() < 0.3:
+                prog["steps"].append({"op": "write", "lane": rng.choice(lanes), "data": d, "algo": "sha256"})
+            if rng.random() < 0.3:
+                prog["steps"].append({"op": "w_write", "lane": lane, "h": w, "data": d, "from": 0, "to": 0})
+            prog["steps"].append({"op": rng.choice(["w_commit", "w_commit", "h_drop"]), "lane": lane, "h": w})
+            for k in okkeys:
+                prog["steps"].append({"op": "write", "lane": rng.choice(lanes), "key": k, "data": d_ok, "algo": "sha256"})
+        elif point == "odd_order":
             # unusual but legal call orders on the handle: flush before any write, zero-length
             # writes, repeated flushes, close twice, write / flush / commit after close
             seq = rng.sample(["flush", "zero", "flush", "close", "close", "zero_v", "write_after"], rng.randrange(2, 6))
@@ -974,3 +985,31 @@ def removal_combo_programs(rng, lanes=ALL_LANES, lanes_per_combo=2):
                 observe_all(prog, rng, lanes, keys, addrs, read=True)
                 progs.append(prog)
     return progs
+
+
+def cleared_writer_program(rng, lanes=ALL_LANES):
+    """systematic: for every lane x keyed/by-address x declared size or not: open a writer, feed
+    it, clear the cache (sweeping its temp file away), possibly re-publish the same content,
+    then commit or drop - every call must RETURN"""
+    prog = {"keys": {}, "blobs": {}, "steps": []}
+    c = 0
+    for lane in lanes:
+        for keyed in (True, False):
+            for declare in (False, True):
+                for then in ("commit", "rewrite_commit", "drop"):
+                    n = rng.choice([0, 10, 5000])
+                    d = _mk_data(prog, rng, n)
+                    w = "cw%d" % c
+                    s_ = {"op": "open_writer", "lane": lane, "opts": dict({"algo": "sha256"}, **({"size": n} if declare else {})),
+                          "as": w, "plan": d}
+                    if keyed:
+                        s_["key"] = add_key(prog, rand_key(rng, c))
+                    prog["steps"].append(s_)
+                    prog["steps"].append({"op": "w_write", "lane": lane, "h": w, "data": d})
+                    prog["steps"].append({"op": "clear", "lane": rng.choice(lanes)})
+                    if then == "rewrite_commit":
+                        prog["steps"].append({"op": "write", "lane": rng.choice(lanes), "data": d, "algo": "sha256"})
+                    prog["steps"].append({"op": "h_drop" if then == "drop" else "w_commit", "lane": lane, "h": w})
+                    prog["steps"].append({"op": "list", "lane": "S"})
+                    c += 1
+    return prog
